@@ -111,6 +111,7 @@ class C14(Prop):
             "close_at": st.one_of(st.none(), st.integers(0, 8)),
             "fault": st.one_of(st.none(), st.tuples(st.integers(0, 5), st.sampled_from(["timeout", "oserror", "exc"])).map(list)),
             "seg": gen.segmentation(),
+            "deflate": st.booleans(),      # permessage-deflate negotiated (Pongs must still go out uncompressed)
         })
 
     def enumerations(self, tier):
@@ -145,9 +146,11 @@ class C14(Prop):
         att = {}
         if fault_ordinal is not None:
             att["faults"] = {"send": {str(fault_ordinal): case["fault"][1]}}
+        reply = httpref.canonical_spec(extensions=["permessage-deflate"]) if case.get("deflate") else None
         scn = build.scenario(
-            [["wait_request"], ["stream", [["reply", None], ["bytes", bytes(built.data)]], seg, 0.0], ["eof", 1.0]],
+            [["wait_request"], ["stream", [["reply", reply], ["bytes", bytes(built.data)]], seg, 0.0], ["eof", 1.0]],
             connect_opts={"auto_pong": case["auto_pong"], "ping_rate": 0, "close_timeout": None},
+            ws_opts={"compress": True} if case.get("deflate") else None,
             reactions=reactions, attempt_extra=att)
         return scn, built
 
@@ -189,7 +192,8 @@ class C14(Prop):
         names = tr.names()
         ping_idx = [i for i, n in enumerate(names) if n == "ping"]
         payloads = [tr.events[i]["data"] for i in ping_idx]
-        labels = {"auto_pong:%s" % case["auto_pong"], "pings:%d" % min(len(ping_idx), 6)}
+        labels = {"auto_pong:%s" % case["auto_pong"], "pings:%d" % min(len(ping_idx), 6),
+                  "deflate" if case.get("deflate") else "plain"}
         close_rec = [r for r in tr.actions if r["action"][0] == "close"]
         close_ev = close_rec[0]["ev"] if close_rec else None
         ping_after_close = close_ev is not None and any(i > close_ev for i in ping_idx)
@@ -228,6 +232,9 @@ class C14(Prop):
             return failed("pong_count", "%d Pings before the client's Close, %d Pongs written by the library; events %s" % (
                 len(expected), len(attempted), names), labels, nontrivial)
         for n, ((pi, want), (li, ev, f, ok)) in enumerate(zip(expected, attempted)):
+            if f.rsv1 or f.rsv2 or f.rsv3 or not f.fin:
+                return failed("pong_payload", "Pong %d has reserved bits set / is fragmented (RSV1=%d): control frames are "
+                              "never compressed" % (n, f.rsv1), labels, nontrivial)
             if f.payload != want:
                 return failed("pong_payload", "Pong %d carries %s, Ping carried %s" % (n, f.payload.hex(), want.hex()),
                               labels, nontrivial)
